@@ -35,8 +35,12 @@ Vocabulary (`Goat/Model/Encrypt.lean`, `Goat/Proofs/Encrypt*.lean`, namespace `G
   `k.header`          `[]` for `raw`, the 4-byte little-endian tag `0` for `tagged`
   `keyMaterial host set`  `set.secret ++ (if set.hostOnly then host else []) ++ set.salt`
   `ofOpen`            `some p ↦ ok p`, `none ↦ err auth`
+  `hstep c kms ent s st` / `hrun c kms ent s steps`  (`Goat/Model/EncHandles.lean`) one step / a history over a state
+                      of files and numbered handles (`Handle.reader rest`, `Handle.writer fs file w`), filespace i has
+                      key material `kms[i]`; `none` = not well formed; `st.handle?` the handle a step addresses
 -/
 import Goat.Proofs.EncryptFS
+import Goat.Proofs.EncHandles
 
 namespace Goat.C05
 
@@ -352,5 +356,62 @@ example :
         (⟨fun _ op log => (log.length, log ++ [op]), fun _ _ _ => some (), fun _ _ _ => none,
           fun _ _ _ _ => none⟩ : BaseOps Unit (List NsOp) Nat) (.remove [120]) [.isDir []]
       = (1, [.isDir [], .remove [120]]) := rfl
+
+/-! ### 8. Several open handles: a reader is a snapshot of its file taken at open -/
+
+/-- `Reader(path)` through a filespace whose key material wrote the file (whole-file or stream, any chunking):
+the reader object holds exactly the content written. -/
+theorem reader_holds_content_at_open (a : AEAD) (hl : a.Lawful) (H : Bytes → Bytes) (k : Kind) (wp : Path2)
+    (kms : List Bytes) (fs file h : Nat) (km ent ent' : Bytes) (chunks : List Bytes) (s : HState) (stored : Bytes)
+    (hkm : kms[fs]? = some km) (hent : a.nonceSize ≤ ent.length)
+    (hw : (mkCipher a H k).writeVia wp km ent chunks = .ok stored) (hfile : s.file file = some stored)
+    (hfree : s.busy file = false) (hfresh : s.handle h = none) :
+    hstep (mkCipher a H k) kms ent' s (.openReader fs file h)
+      = some (s.setHandle h (.reader chunks.flatten), .ok) :=
+  openReader_on_written (mk_sound a H k) (mk_invertible a hl H k) wp kms fs file h km ent ent' chunks s stored
+    hkm hent hw hfile hfree hfresh
+
+/-- Whatever happens in between — a history of ANY length and ANY cipher, none of whose steps addresses handle `h`:
+other readers opened, read, closed (on any file, through any filespace), whole-file writes to any file INCLUDING
+the reader's own, writers opened, written, closed in any order — an open reader still holds, and on a
+read-to-the-end delivers, exactly what it held. -/
+theorem open_reader_untouched (c : Cipher) (kms : List Bytes) (ent : Bytes) (h : Nat) (d : Bytes)
+    (steps : List HStep) (s s' : HState) (outs : List HOut)
+    (hopen : s.handle h = some (.reader d)) (hother : ∀ st ∈ steps, st.handle? ≠ some h)
+    (hr : hrun c kms ent s steps = some (s', outs)) :
+    s'.handle h = some (.reader d) ∧
+      hstep c kms ent s' (.readAll h) = some (s'.setHandle h (.reader []), .data d none) := by
+  have hf := hrun_frame c kms ent h steps s s' outs hother hr
+  rw [hopen] at hf
+  exact ⟨hf, by simp [hstep, hf]⟩
+
+/-- Both together: a reader opened on written content delivers THAT content after any such history. -/
+theorem reader_delivers_content_at_open (a : AEAD) (hl : a.Lawful) (H : Bytes → Bytes) (k : Kind) (wp : Path2)
+    (kms : List Bytes) (fs file h : Nat) (km ent ent' : Bytes) (chunks : List Bytes) (s s' : HState)
+    (stored : Bytes) (steps : List HStep) (outs : List HOut)
+    (hkm : kms[fs]? = some km) (hent : a.nonceSize ≤ ent.length)
+    (hw : (mkCipher a H k).writeVia wp km ent chunks = .ok stored) (hfile : s.file file = some stored)
+    (hfree : s.busy file = false) (hfresh : s.handle h = none)
+    (hother : ∀ st ∈ steps, st.handle? ≠ some h)
+    (hr : hrun (mkCipher a H k) kms ent' (s.setHandle h (.reader chunks.flatten)) steps = some (s', outs)) :
+    hrun (mkCipher a H k) kms ent' s (.openReader fs file h :: steps ++ [.readAll h])
+      = some (s'.setHandle h (.reader []), .ok :: outs ++ [.data chunks.flatten none]) := by
+  have ho := reader_holds_content_at_open a hl H k wp kms fs file h km ent ent' chunks s stored hkm hent hw hfile
+    hfree hfresh
+  have hd := (open_reader_untouched (mkCipher a H k) kms ent' h chunks.flatten steps _ s' outs
+    (handle_setHandle_self s h _) hother hr).2
+  simp only [hrun, ho, List.cons_append]
+  rw [hrun_append_one _ _ _ _ _ _ _ _ _ _ hr hd]
+
+-- non-vacuity: two files, a reader on each (the second opened before the first is read), the first file is
+-- overwritten, a writer on a third file is open meanwhile: reader 1 delivers what file 0 held when it was opened
+example :
+    (hrun (mkCipher toyAEAD id .tagged) [[1], [2]] [1, 2, 3, 4, 5, 6, 7, 8, 9, 10, 11, 12] HState.empty
+      [.writeFile 0 0 [104, 105], .writeFile 0 1 [98, 121, 101], .openReader 0 0 1, .openReader 0 1 2,
+       .openReader 1 1 3, .writeFile 0 0 [110, 101, 119], .openWriter 0 2 4, .write 4 [122], .readAll 2,
+       .readAll 1, .closeWriter 4, .readFile 0 0, .readFile 0 2]).map (·.2)
+      = some [.ok, .ok, .ok, .ok, .err, .ok, .ok, .ok, .data [98, 121, 101] none, .data [104, 105] none, .ok,
+              .data [110, 101, 119] none, .data [122] none] := by
+  decide
 
 end Goat.C05
